@@ -2,7 +2,7 @@ import RTV.Drv.DtExtract
 import RTV.Model.DtExtract2
 /-! Driver handlers for L2c `DtExtract2` (C01, C12); same encoding as `RTV.Drv.DtExtract` (`dx.*`): lists `,`, fields `:`,
 `-` = empty, optional match `k:s:e`, optional ConditionalMatch `k:idx:len:succ`, records with sub-lists use `/`, lists of
-records `|`. `<v>` = `basicMatchStart:mdtLenFixed:rangeRstrip`, `<w>` = `yearPeriodEnd:centuryOffset`.
+records `|`. `<v>` = `basicMatchStart:mdtLenFixed:rangeRstrip`, `<w>` = `yearPeriodEnd:centuryOffset:dtpDurShift`.
   dy.century <w> <n> <start:len:ws:k:s:e:first,..>
   dy.year    <w> <s:e:keep,..>
   dy.single  <dates> <ords> <calls|calls..>   calls = <k:s:e:edge:rfind:inPrefix,..> per point   -> tokens | err:AttributeError
@@ -11,7 +11,7 @@ records `|`. `<v>` = `basicMatchStart:mdtLenFixed:rangeRstrip`, `<w>` = `yearPer
   dy.tppoints <times> <nums> <ending> <c,..>                                    -> start:len,..
   dy.tpmerge <v> <times> <nums> <ending> <c,..> <pair facts as dx.range>
   dy.dtp2    <dates> <periods> <ok,..>
-  dy.dtpdur  <f|f..>   f = start/len/bothEmpty/k:s:e/seg/first/unit/cm/cm/nums/plen/nid/dateUnitAfter/cm/cm/cm
+  dy.dtpdur  <w> <lead> <f|f..>   f = start/len/bothEmpty/k:s:e/seg/first/unit/cm/cm/nums/plen/nid/dateUnitAfter/cm/cm/cm
   dy.tod     <n> <spec> <tod|..> <adjB|..> <adjA|..>   tod = start/len/k:s:e/todS/todLen/blank1/pause1/k:s:e/k:s:e/k:s:e/rest2Blank/mid2Space/pause2
                                             adjB = key/<start:len:gap:ok,..>   adjA = key/<start:len:ok,..>
   dy.rel     <rel> <rest>
@@ -24,7 +24,7 @@ open RTV.Drv RTV.Py RTV.DtExtract RTV.DtExtract2 RTV.Drv.Dx
 
 def pV2 (f : String) : V2 :=
   match f.splitOn ":" with
-  | [a, b] => ⟨pB a, pB b⟩
+  | [a, b, c] => ⟨pB a, pB b, pB c⟩
   | _ => V2.current
 
 def pEnts (f : String) : List Ent :=
@@ -108,9 +108,9 @@ def pDtpDur (f : String) : Option DtpDurFact :=
   | _ => none
 
 def hDtpDur : Handler
-  | [fs] =>
+  | [w, lead, fs] =>
     let l := (recs fs).map pDtpDur
-    if l.any Option.isNone then "bad-op" else showToks (dtpMatchDuration (l.filterMap id))
+    if l.any Option.isNone then "bad-op" else showToks (dtpMatchDurationV (pV2 w) (parseInt lead) (l.filterMap id))
   | _ => "bad-op"
 
 def pTod (f : String) : Option TodFact :=
